@@ -22,7 +22,7 @@ Export ==
 
 GenModels == {Cat.models[i].id : i \in {j \in DOMAIN Cat.models : Cat.models[j].family = "gen"}}
 AllModels == {Cat.models[i].id : i \in DOMAIN Cat.models} \ GenModels
-AliasModels == {"collections", "plain", "enum_str", "parsed", "extra", "hooks", "mixany", "setval", "extracyc", "dashed_sav", "dashed", "tree"}
+AliasModels == {"collections", "plain", "enum_str", "parsed", "extra", "hooks", "mixany", "setval", "extracyc", "dashed_sav", "dashed", "tree", "gen4", "gen7", "gen8", "gen9"}
 
 \* cheap structural invariants checked in every state
 TypeOK ==
